@@ -6,6 +6,13 @@
  *   cert <mode> <entry>... name:<hex>          -> "rc=<0|-1|-2> err=<class> contains=<0|1>"
  *   hs   <mode> <entry>... name:<hex>          -> "hs=<ok|fail> err=<class>"   (real handshake over a
  *                                                 socketpair, self-signed cert, verify_cert off)
+ *   hsr  <mode> <script> <entry>... name:<hex> -> "calls=<res>,<res>,..."  one connection, the calls of
+ *                                                 <script> (1..8 letters: h = tls_handshake, w = tls_write of
+ *                                                 1 byte, r = tls_read of 1 byte) are made one after the other
+ *                                                 on the SAME client context, each driven until it returns
+ *                                                 something else than TLS_WANT_POLLIN/POLLOUT;
+ *                                                 <res> = ok | fail:<tls_error class> | stuck.  A refused name
+ *                                                 must stay refused on every retry and inside read/write.
  *   Client-context reuse (one persistent client context per #case, created on first use):
  *   cnew                                       -> "ok"   drop the persistent context (next use makes a fresh one)
  *   cfail <mode> name:<hex>                    -> "connect=fail"  a tls_connect_fds() for <name> that fails
@@ -232,8 +239,41 @@ static void pcli_drop(void)
 	g_pcli = NULL;
 }
 
-/* pcli != NULL: use (and keep) this client context instead of a fresh one */
-static void do_handshake(X509 *x, const char *name, struct tls *pcli)
+/* one client call of the script, driven to a definite answer; the server side is pumped in
+ * between (handshake, then 8 bytes of application data).  returns 1 ok, 0 failed, -1 stuck */
+static int drive_call(char what, struct tls *cli, struct tls *sconn, int *sdone, int *swrote)
+{
+	int rounds;
+	for (rounds = 0; rounds < 200; rounds++) {
+		long r;
+		char buf[1] = { 'C' };
+		if (what == 'h')
+			r = tls_handshake(cli);
+		else if (what == 'w')
+			r = tls_write(cli, buf, 1);
+		else
+			r = tls_read(cli, buf, 1);
+		if (r != TLS_WANT_POLLIN && r != TLS_WANT_POLLOUT) {
+			if (what == 'h')
+				return r == 0;
+			return r > 0;
+		}
+		if (!*sdone) {
+			int sr = tls_handshake(sconn);
+			if (sr == 0) *sdone = 1;
+			else if (sr != TLS_WANT_POLLIN && sr != TLS_WANT_POLLOUT) *sdone = 2;
+		}
+		if (*sdone == 1 && !*swrote) {
+			if (tls_write(sconn, "SSSSSSSS", 8) == 8)
+				*swrote = 1;
+		}
+	}
+	return -1;
+}
+
+/* pcli != NULL: use (and keep) this client context instead of a fresh one.
+ * script != NULL: hsr op (see top of file) instead of the single handshake */
+static void do_handshake(X509 *x, const char *name, struct tls *pcli, const char *script)
 {
 	struct tls_config *scfg = NULL;
 	struct tls *srv = NULL, *sconn = NULL, *cli = NULL;
@@ -273,6 +313,21 @@ static void do_handshake(X509 *x, const char *name, struct tls *pcli)
 	if (tls_connect_fds(cli, sv[1], sv[1], name) != 0) {
 		/* e.g. OpenSSL refuses the SNI value: happens before any name verification */
 		printf("hs=connect-fail err=%s\n", err_class(tls_error(cli)));
+		goto out;
+	}
+	if (script) {
+		int sd = 0, sw = 0, i;
+		printf("calls=");
+		for (i = 0; script[i]; i++) {
+			int ok;
+			clear_error(cli);	/* the text must be set by THIS call */
+			ok = drive_call(script[i], cli, sconn, &sd, &sw);
+			if (i) putchar(',');
+			if (ok == 1) printf("ok");
+			else if (ok == 0) printf("fail:%s", err_class(tls_error(cli)));
+			else printf("stuck");
+		}
+		putchar('\n');
 		goto out;
 	}
 	while ((!cdone || !sdone) && rounds++ < 200) {
@@ -466,10 +521,22 @@ int main(void)
 			continue;
 		}
 		if (n >= 3 && n < 64 && strlen(w[1]) == 1 &&
-		    (strcmp(w[0], "cert") == 0 || strcmp(w[0], "hs") == 0 || strcmp(w[0], "chs") == 0)) {
+		    (strcmp(w[0], "cert") == 0 || strcmp(w[0], "hs") == 0 || strcmp(w[0], "chs") == 0 ||
+		     strcmp(w[0], "hsr") == 0)) {
 			int bad = 0;
 			int is_chs = (strcmp(w[0], "chs") == 0);
+			int is_hsr = (strcmp(w[0], "hsr") == 0);
 			int is_hs = (w[0][0] == 'h') || is_chs;
+			const char *script = NULL;
+			if (is_hsr) {
+				/* w[2] is the script; shift it out so that entries start at w[2] again */
+				int k;
+				script = w[2];
+				if (n < 4 || strlen(script) < 1 || strlen(script) > 8 ||
+				    strspn(script, "hwr") != strlen(script)) { puts("bad-op"); continue; }
+				for (k = 2; k < n - 1; k++) w[k] = w[k + 1];
+				n--;
+			}
 			char *name = parse_name(w[n - 1]);
 			X509 *x;
 			if (!name) { puts("bad-op"); continue; }
@@ -480,7 +547,7 @@ int main(void)
 				continue;
 			}
 			if (is_hs) {
-				do_handshake(x, name, is_chs ? pcli_get() : NULL);
+				do_handshake(x, name, is_chs ? pcli_get() : NULL, script);
 			} else {
 				int rc, contains;
 				const char *cls;
